@@ -42,8 +42,18 @@ ForkBox(profiles, opts) == {[t |-> Fork(n1, n2, f1, f2, f3, f4), o |-> o] :
                                f1 \in profiles, f2 \in profiles, f3 \in profiles, f4 \in profiles, o \in opts}
 TwoStemBox(opts) == {[t |-> Chain(3, "probe00", fs), o |-> o] : fs \in SUBSET UTwo, o \in opts}
 
+\* the ap loop and the nidq loop never look at each other's files: all subsets of the ap/lf files x a few nidq profiles, and
+\* all subsets of the nidq files x two ap profiles, instead of all subsets of the union
+UAp(U) == {f \in U : f.stream # "nidq"}
+UNi(U) == {f \in U : f.stream = "nidq"}
+SplitBox(Ls, U, opts) ==
+    {[t |-> Chain(L, nm, fa \cup fn), o |-> o] : L \in Ls, nm \in {"raw_ephys_data", "probe00"},
+        fa \in {x \in SUBSET UAp(U) : F(Stem, "ap", "meta") \in x \/ x \in {{}, {F(Stem, "lf", "bin")}}}, fn \in {P0, P3, P4}, o \in opts}
+    \cup {[t |-> Chain(L, nm, fa \cup fn), o |-> o] : L \in Ls, nm \in {"raw_ephys_data", "probe00"},
+        fa \in {P0, P1}, fn \in SUBSET UNi(U), o \in opts}
 MCGlobCases ==
-    CASE Box = "quick" -> SingleBox({1, 2, 3}, UQuick, OptsQuick) \cup ForkBox({P0, P1, P3, P6}, OptsQuick) \cup TwoStemBox(OptsQuick)
+    IF Part # "glob" THEN {} ELSE
+    CASE Box = "quick" -> SplitBox({1, 2, 3}, UQuick \cup {F(Stem, "nidq", "cbin")}, OptsQuick) \cup ForkBox({P0, P1, P6}, OptsQuick) \cup TwoStemBox(OptsQuick)
       [] Box = "t1" -> SingleBox({1}, UFull, OptsThorough)
       [] Box = "t2" -> SingleBox({2}, UFull, OptsThorough)
       [] Box = "t3" -> SingleBox({3}, UFull, OptsThorough)
@@ -75,8 +85,8 @@ PinsOf(sy) == CASE sy = "3A" -> {"pin03", "pin05", "pin06", "pin19", "pin25"}
 Names == IF Box = "quick" THEN {"bpod", "audio"} ELSE {"bpod", "audio", "laser"}
 NDig == IF Box = "quick" THEN 2 ELSE 3
 Digs(sy) == {Absent} \cup {[present |-> TRUE, w |-> w] : w \in Wirings(PinsOf(sy), Names, IF sy = "none" THEN 1 ELSE NDig)}
-Anas == {Absent} \cup {[present |-> TRUE, w |-> w] : w \in Wirings({"AI0", "AI2", "AI10", "AIN"}, Names, 2)}
-MCSyncCases == UNION {{[sys |-> sy, dig |-> d, ana |-> a] : d \in Digs(sy), a \in Anas} : sy \in {"3A", "3B", "XX", "none"}}
+Anas == IF Part # "sync" THEN {} ELSE {Absent} \cup {[present |-> TRUE, w |-> w] : w \in Wirings({"AI0", "AI2", "AI10", "AIN"}, Names, 2)}
+MCSyncCases == IF Part # "sync" THEN {} ELSE UNION {{[sys |-> sy, dig |-> d, ana |-> a] : d \in Digs(sy), a \in Anas} : sy \in {"3A", "3B", "XX", "none"}}
 SyncExpect(c) == LET r == ImplSyncMap(c) IN [c |-> c, exc |-> r.exc, map |-> {<<n, r.map[n]>> : n \in DOMAIN r.map}]
 ExportSync == /\ TLCGet("distinct") >= 0
               /\ JsonSerialize(IOEnv.OUT_FILE, [cases |-> SetToSeq({SyncExpect(c) : c \in MCSyncCases}),
@@ -88,6 +98,7 @@ ExportSync == /\ TLCGet("distinct") >= 0
 -----------------------------------------------------------------------------
 \* 3. reconstructor
 MCReconCases ==
+    IF Part # "recon" THEN {} ELSE
     {[kind |-> "NP2.4", nsh |-> n, k |-> k, pre |-> p, compress |-> z] : n \in 1..4, k \in 0..5, p \in {"none", "match", "mismatch"}, z \in BOOLEAN}
     \cup {[kind |-> kd, nsh |-> 1, k |-> k, pre |-> p, compress |-> z] : kd \in {"NP2.1", "3B2"}, k \in 0..2, p \in {"none", "match", "mismatch"}, z \in BOOLEAN}
 RECURSIVE ReconPath(_, _)
